@@ -539,6 +539,9 @@ func e10Case(kind string, seed uint64, n int) Case {
 			plan.Targets = map[string]time.Duration{[]string{"refiltering...", "update:", "distribute event", "update event"}[rng.Intn(4)]: 60 * time.Microsecond}
 		}
 		core := kit.NewCore(plan)
+		if n%5 == 4 {
+			core = nil // race mode
+		}
 		lateDst := n%4 == 3 && kind != "ingress-service"
 		var dl time.Duration
 		if lateDst {
